@@ -42,6 +42,17 @@ from rtamt.syntax.node.ltl.constant import Constant
 from rtamt.exception.exception import RTAMTException
 
 
+def literal_value(text):
+    """Python-readable form of an IntegerLiteral / RealLiteral token: the lexer also accepts
+    hexadecimal (0x1F) and binary (0b101) integers and '_' between digits (1_000)"""
+    text = text.replace('_', '')
+    if text[:2] in ('0x', '0X'):
+        return int(text[2:], 16)
+    if text[:2] in ('0b', '0B'):
+        return int(text[2:], 2)
+    return text
+
+
 class LtlAstParserVisitor(LtlParserVisitor):
 
     def visitExprPredicate(self, ctx):
@@ -123,7 +134,7 @@ class LtlAstParserVisitor(LtlParserVisitor):
         # fetch the variable name, type and io signature
         const_name = ctx.Identifier().getText()
         const_type = ctx.domainType().getText()
-        const_value = ctx.literal().getText()
+        const_value = str(literal_value(ctx.literal().getText()))
 
         self.declare_const(const_name, const_type, const_value)
 
@@ -218,7 +229,7 @@ class LtlAstParserVisitor(LtlParserVisitor):
         return node
 
     def visitExprLiteral(self, ctx):
-        val = float(ctx.literal().getText())
+        val = float(literal_value(ctx.literal().getText()))
         node = Constant(val)
         self.phi_name_to_node_dict[node.name] = node
         return node
